@@ -44,7 +44,8 @@ func c02paths() []c02path {
 		p int
 		s int64
 	}
-	variants := []variant{{0, -1}}
+	// {0, 0}: a node that was started and stopped before it stored anything (its consumer state file exists and holds 0)
+	variants := []variant{{0, -1}, {0, 0}}
 	ps := []int{1, 9, 10, 11, 24, 25, 26, 499, 500, 501, 999, 1000, 1499, 1500, 1501, 1999, 2000, 2001, 2300}
 	for _, p := range ps {
 		variants = append(variants, variant{p, -1}, variant{p, int64(p - 1)})
@@ -63,6 +64,7 @@ func c02paths() []c02path {
 		return res
 	}
 	small := map[int]bool{0: true, 1: true, 10: true, 500: true}
+	_ = small
 	for _, v := range variants {
 		depths := []int{1, 2}
 		if vk.Thorough() || small[v.p] {
@@ -240,6 +242,9 @@ func TestC02Delivery(t *testing.T) {
 						payload += strings.Repeat("x", p.Size-len(payload))
 					}
 					s := sent{topic: fmt.Sprintf("t/%d", k), payload: payload, qos: q, pub: pubc, mid: int32(10 + k)}
+					if p.Retained {
+						s.topic = fmt.Sprintf("t/$%d", k) // (a level beginning with '$' below the first is an ordinary level)
+					}
 					if k == p.FailAt {
 						w.FailLog(1, true)
 					}
